@@ -160,6 +160,7 @@ var urlclassTable = []struct{ in, want string }{
 	{"//[::1]/x", "off"}, {"//[::1]:8080", "off"}, {"//evil.example:443", "off"}, {"//EVIL.example", "off"},
 	{"javascript:alert(1)", "off"}, {"JaVaScRiPt:alert(1)", "off"}, {"java\tscript:alert(1)", "off"}, {"data:text/html,x", "off"}, {"mailto:a@b", "off"}, {"x-app://open", "off"},
 	{"//", "invalid"}, {"///", "invalid"}, {"https://", "invalid"}, {"//:80", "invalid"}, {"//a b/", "invalid"},
+	{"/./\\evil.example/", "same"}, {"/x/..//evil.example", "same"}, {"/.//evil.example/", "same"},
 	{"/path:with:colons", "same"}, {"1http://evil.example", "same"}, {"./http://evil.example", "same"}, {"/http://evil.example", "same"}, {"/x?u=http://evil.example", "same"},
 	{"//site%2etest/x", "same"}, {"//site.test\\@evil.example", "same"},
 }
